@@ -295,7 +295,7 @@ fn run_once(case: &Case) -> Result<Observed, String> {
         }
     };
     let connect_stall = matches!(case.scenario, Scenario::Stall { point: StallPoint::Connect, .. });
-    let hole = if connect_stall { Some(crate::peers::black_hole(false, 1).map_err(|e| format!("black hole: {e}"))?) } else { None };
+    let mut hole = if connect_stall { Some(crate::peers::black_hole(false, 1).map_err(|e| format!("black hole: {e}"))?) } else { None };
     let tunnel = case.tunnel && scripts.len() == 1 && !upload && !connect_stall;
     let mut server = if tunnel { tunnel_script_server("good", scripts.into_iter().next().unwrap()) } else { script_server(scripts) }.map_err(|e| format!("server: {e}"))?;
     install_sched(&case.sched);
@@ -340,6 +340,8 @@ fn run_once(case: &Case) -> Result<Observed, String> {
         Ok(o) => o,
         Err(_) => {
             server.finish();
+            // (closing the unresponsive listener makes a connection attempt that nothing else bounds fail at its next retransmission)
+            drop(hole.take());
             let mut o = rx.recv_timeout(Duration::from_secs(30)).map_err(|_| "client thread did not end even after the peer closed".to_string())?;
             o.hung = true;
             o
